@@ -86,6 +86,8 @@ type MsgSpec struct {
 	// Middleware: message middlewares installed with WithMiddleware: footer (appends a footer to every text part, once),
 	// header (sets a generic header), copy-body (returns a modified copy of the Msg), encoding (switches every part to base64), attach (adds an attachment, once)
 	Middleware []string `json:"middleware,omitempty"`
+	// PGP: "" | encrypt | signature - the message is declared PGP/MIME (WithPGPType); the parts are the caller's business
+	PGP string `json:"pgp,omitempty"`
 }
 
 // specMiddleware is a mail.Middleware of one of the kinds above.
@@ -317,6 +319,12 @@ func (s *MsgSpec) Build(env *Env) (*mail.Msg, error) {
 	}
 	if s.NoUA {
 		opts = append(opts, mail.WithNoDefaultUserAgent())
+	}
+	switch s.PGP {
+	case "encrypt":
+		opts = append(opts, mail.WithPGPType(mail.PGPEncrypt))
+	case "signature":
+		opts = append(opts, mail.WithPGPType(mail.PGPSignature))
 	}
 	for _, k := range s.Middleware {
 		opts = append(opts, mail.WithMiddleware(specMiddleware{k}))
@@ -684,6 +692,9 @@ func (s *MsgSpec) Shape() string {
 	}
 	if s.SMIME != "" {
 		fmt.Fprintf(&sb, "S(%s,%t)", s.SMIME, s.WithInt)
+	}
+	if s.PGP != "" {
+		fmt.Fprintf(&sb, "PGP(%s)", s.PGP)
 	}
 	return sb.String()
 }
